@@ -284,7 +284,11 @@ impl<W: AsRef<[u64]>> JsonIndex<W> {
             return None;
         }
 
-        let k32 = k as u32;
+        // At most `ib_len <= u32::MAX` bits are set (#188), so a rank that does not fit
+        // in `u32` lies past the last one. `k as u32` would wrap it onto a valid rank.
+        let Ok(k32) = u32::try_from(k) else {
+            return None;
+        };
         let n = words.len();
 
         // #40: count `ib_rank` probes so this path's cost can be compared with
@@ -402,7 +406,11 @@ impl<W: AsRef<[u64]>> JsonIndex<W> {
             return None;
         }
 
-        let k32 = k as u32;
+        // At most `ib_len <= u32::MAX` bits are set (#188), so a rank that does not fit
+        // in `u32` lies past the last one. `k as u32` would wrap it onto a valid rank.
+        let Ok(k32) = u32::try_from(k) else {
+            return None;
+        };
         let n = words.len();
 
         // Binary search over all words
